@@ -99,20 +99,24 @@ UNITS.append(dict(name="c03_cforest_solve_shell", template="C03/bit_solve.c", mo
                   bound="<= 3 planner instances, run one after the other (the threads are not modelled)", backend="minisat", timeout=300, functions=["ompl::geometric::CForest::solve (everything around the planner threads)"],
                   canaries=[dict(name="best_cost_not_reinitialised", where="body:cf_solve", rx=r"bestCost_ = __builtin_inf\(\);", repl=";")]))
 
-CL_RULES = [(r"Planner::clear\(\);", "BASE_CLEAR();", 0), (r"\b\w+_\.reset\(\);", "resets++;", 0), (r"\bfreeMemory\(\);", "FREE_MEMORY();", 0), (r"if \(nn_\)\s*nn_->clear\(\);", "nn_nonempty = 0;", 0),
+CL_RULES = [(r"curGoalVertex_\.reset\(\);", "goal_vertex_set = 0;", 0), (r"Planner::clear\(\);", "BASE_CLEAR();", 0), (r"\b\w+_\.reset\(\);", "resets++;", 0), (r"\bfreeMemory\(\);", "FREE_MEMORY();", 0), (r"if \(nn_\)\s*nn_->clear\(\);", "nn_nonempty = 0;", 0),
             (r"if \(tStart_\)\s*tStart_->clear\(\);", "tstart_nonempty = 0;", 0), (r"if \(tGoal_\)\s*tGoal_->clear\(\);", "tgoal_nonempty = 0;", 0), (r"motions_\.clear\(\);", "motions_nonempty = 0;", 0), (r"pdf_\.clear\(\);", "pdf_nonempty = 0;", 0),
             (r"disc_\.clear\(\);", "disc_nonempty = 0;", 0), (r"connectionPoint_ = std::make_pair<base::State \*, base::State \*>\(nullptr, nullptr\);", "connection_set = 0;", 0),
             (r"std::numeric_limits<double>::infinity\(\)", "__builtin_inf()", 0), (r"if \(projectionEvaluator_ && projectionEvaluator_->hasBounds\(\)\)\s*bsp_ = new Cell\(1\., projectionEvaluator_->getBounds\(\), 0\);", "if (HAS_BOUNDS) bsp_fresh = 1;", 0),
-            (r"setupTree\(\);", "tree_rebuilt = 1;", 0)]
+            (r"setupTree\(\);", "tree_rebuilt = 1;", 0), (r"Open_\.clear\(\);", "open_nonempty = 0;", 0), (r"neighborhoods_\.clear\(\);", "nbh_nonempty = 0;", 0), (r"graphLb_\.clear\(\);", "graphlb_nonempty = 0;", 0), (r"graphApx_\.clear\(\);", "graphapx_nonempty = 0;", 0),
+            (r"(?:costHelpPtr_|graphPtr_|queuePtr_)->reset\(\);", "helper_resets++;", 0), (r"curGoalVertex_\.reset\(\);", "goal_vertex_set = 0;", 0), (r"ompl::base::Cost\(__builtin_inf\(\)\)", "__builtin_inf()", 0), (r"Planner::setup_", "setup_", 0)]
 for _pl, _f, _cls, _has, _can in (
         ("ctrl_rrt", "src/ompl/control/planners/rrt/src/RRT.cpp", "ompl::control::RRT", ["HAS_FREE", "HAS_NN", "HAS_LGM"], dict(name="goal_motion_pointer_kept", rx=r"lastGoalMotion_ = NULL;", repl=";")),
         ("kpiece1", "src/ompl/geometric/planners/kpiece/src/KPIECE1.cpp", "ompl::geometric::KPIECE1", ["HAS_DISC", "HAS_LGM"], dict(name="discretization_kept", rx=r"disc_nonempty = 0;", repl=";")),
         ("est", "src/ompl/geometric/planners/est/src/EST.cpp", "ompl::geometric::EST", ["HAS_FREE", "HAS_NN", "HAS_MOTIONS", "HAS_PDF", "HAS_LGM"], dict(name="pdf_keeps_the_old_elements", rx=r"pdf_nonempty = 0;", repl=";")),
         ("rrtconnect", "src/ompl/geometric/planners/rrt/src/RRTConnect.cpp", "ompl::geometric::RRTConnect", ["HAS_FREE", "HAS_TREES"], dict(name="goal_tree_kept", rx=r"tgoal_nonempty = 0;", repl=";")),
-        ("pdst", "src/ompl/geometric/planners/pdst/src/PDST.cpp", "ompl::geometric::PDST", ["HAS_FREE", "HAS_LGM", "HAS_BSP"], dict(name="iteration_counter_not_restarted", rx=r"iteration_ = 1;", repl=";"))):
+        ("pdst", "src/ompl/geometric/planners/pdst/src/PDST.cpp", "ompl::geometric::PDST", ["HAS_FREE", "HAS_LGM", "HAS_BSP"], dict(name="iteration_counter_not_restarted", rx=r"iteration_ = 1;", repl=";")),
+        ("fmt", "src/ompl/geometric/planners/fmt/src/FMT.cpp", "ompl::geometric::FMT", ["HAS_FREE", "HAS_NN", "HAS_LGM", "HAS_FMT"], dict(name="open_set_kept", rx=r"open_nonempty = 0;", repl=";")),
+        ("lazylbtrrt", "src/ompl/geometric/planners/rrt/src/LazyLBTRRT.cpp", "ompl::geometric::LazyLBTRRT", ["HAS_FREE", "HAS_NN", "HAS_LGM", "HAS_LBT"], dict(name="approximation_graph_kept", rx=r"graphapx_nonempty = 0;", repl=";")),
+        ("bitstar", "src/ompl/geometric/planners/informedtrees/src/BITstar.cpp", "BITstar", ["HAS_BIT"], dict(name="exact_solution_flag_kept", rx=r"hasExactSolution_ = false;", repl=";"))):
     _c = dict(_can); _c["where"] = "body:pl_clear"
     UNITS.append(dict(name="c03_%s_clear" % _pl, template="C03/clear_generic.c", mode="plain", entry="h_pl_clear", flags=["--bounds-check", "--pointer-check", "--unsigned-overflow-check"], level="proof", backend="minisat", timeout=300,
-                      defines={h: 1 for h in _has}, functions=[_cls + "::clear"], sources=[dict(name="pl_clear", file=_f, sig=r"void %s::clear\(\)" % _cls.replace("::", "::"), rules=CL_RULES, loops={})], canaries=[_c]))
+                      defines={h: 1 for h in _has}, functions=[_cls + "::clear"], sources=[dict(name="pl_clear", file=_f, sig=r"void %s::clear\(\)" % _cls, rules=CL_RULES, loops={})], canaries=[_c]))
 
 _v = copy.deepcopy(C01.NG_UNIT); _v["name"] = "c03_inputstates_nextGoal_ptc"; UNITS.append(_v)
 ASSUMPTIONS = C01.ASSUMPTIONS + ["the termination condition returns an arbitrary value at every evaluation (so every interruption point is covered); executions that create fewer than 8 motions"]
